@@ -45,7 +45,8 @@ the blocking point on*: every modelled step needs its locks at its first action 
   `value.read()` + `unwrap()`.
 * `Sig` — `signal/guards.rs` `Plain::try_new` (`try_read`: a read while the write lock is held
   yields `None`, which `Get::get`/`get_untracked` turn into a panic), `ArcRwSignal::try_write`
-  (blocking `write()`), a user-held `WriteGuard`.
+  (blocking `write()`); `holdWrite v` .. `unhold` is one `sig.update(|n| { *n = v; … })` whose
+  closure spans several schedule entries (every update runs its closure with the lock write-held).
 -/
 namespace Leptos.Park
 
@@ -445,7 +446,7 @@ def lockEdges : List (Lock × Lock) :=
 
 end Memo
 
-/-! ## Sig: plain signal reads (`try_read`) against blocking writes and a user-held write guard -/
+/-! ## Sig: plain signal reads (`try_read`) against blocking writes and an `update` in progress -/
 namespace Sig
 
 inductive Op where
